@@ -648,7 +648,7 @@ let () =
                      if name = "closure" then check_closure_model line pre post;
                      if name = "upper_bound_assign_if_exact" then begin
                        (match !ret with
-                        | Some "1" ->
+                        | Some "1" when post.car = "q" || post.car = "z" ->
                             (* answered true: the result must be exactly the union *)
                             (match rr.pieces with
                              | [ a; b ] -> rep "C03:upper_bound_assign_if_exact/true-is-union" line (of_ob true "answered true but the result is not the set union" (incl_union post.gamma a b))
